@@ -486,7 +486,7 @@ def run_scenario(case: dict[str, Any], ctx: Ctx) -> None:
     lay = case["layout"]
     # quick tier: SQLite schedules are expensive (three storage objects per schedule), journal-file
     # ones moderately; the in-memory / fakeredis thread layouts are enumerated completely
-    limit = (24 if "sqlite" in lay else 50 if "journal_file" in lay else 600) if ctx.tier == "quick" else 100000
+    limit = (24 if "sqlite" in lay else 50 if "journal_file" in lay else 160 if lay.startswith("procs:journal_redis") else 600) if ctx.tier == "quick" else 100000
     for p in conc.switch_points(n, len(case["workers"]), limit, case["salt"]):
         one(p)
     for sched_ in case["multi"]:
@@ -540,7 +540,7 @@ def enum_classic(ctx: Ctx, tier: str, shard: int, nshards: int) -> None:
         ctx.sub = "classic"
         run_scenario(case, ctx)
         ctx.event("classic:" + name)
-    ctx.exhaustive_parts.append("the fifteen classic races on all twelve layouts: every single-preemption schedule on the in-memory / fakeredis layouts (quick tier: 50 / 24 sampled switch points on journal-file / SQLite layouts; thorough tier: all)")
+    ctx.exhaustive_parts.append("the fifteen classic races on all twelve layouts: every single-preemption schedule on the thread layouts in-memory and fakeredis (quick tier: 160 / 50 / 24 sampled switch points on the 'process' fakeredis / journal-file / SQLite layouts, a rotating stride so that a window wider than the stride is always hit; thorough tier: all)")
 
 
 CHECKS = [
